@@ -176,18 +176,27 @@ class Roles:
     def local_aliases(self, fn) -> dict:
         """One-level local aliases `v = <tl>.attr` (also chained `a = b = <tl>.attr = []`)."""
         al = {}
+        stores = {}
         for n in walk_scope(fn.node):
-            if isinstance(n, ast.Assign):
-                srcs = [n.value] + [t for t in n.targets if not isinstance(t, ast.Name)]
-                hit = None
-                for s in srcs:
-                    r = self.tl_of_expr(fn, s)
-                    if r is not None and r[1]:
-                        hit = r
-                if hit is not None:
-                    for t in n.targets:
-                        if isinstance(t, ast.Name):
-                            al[t.id] = hit
+            if isinstance(n, ast.Name) and isinstance(n.ctx, ast.Store):
+                stores[n.id] = stores.get(n.id, 0) + 1
+        for _round in range(3):  # `storage = self._storage; stack = storage.memo_stack`: aliases of aliases
+            before = len(al)
+            for n in walk_scope(fn.node):
+                if isinstance(n, ast.Assign):
+                    srcs = [n.value] + [t for t in n.targets if not isinstance(t, ast.Name)]
+                    hit = None
+                    for s in srcs:
+                        r = self.tl_of_expr(fn, s, al)
+                        # an alias of the thread-local object itself (empty chain) only for a local bound once
+                        if r is not None and (r[1] or all(isinstance(t, ast.Name) and stores.get(t.id) == 1 for t in n.targets)):
+                            hit = r
+                    if hit is not None:
+                        for t in n.targets:
+                            if isinstance(t, ast.Name) and t.id not in al:
+                                al[t.id] = hit
+            if len(al) == before:
+                break
         return al
 
     MUTATORS = {"append", "insert", "pop", "remove", "clear", "extend", "update", "setdefault",
